@@ -14,6 +14,7 @@ import (
 	"os"
 	"path/filepath"
 	"sync"
+	"sync/atomic"
 	"time"
 
 	"github.com/influxdata/influxdb/models"
@@ -27,6 +28,7 @@ type svcWriter struct {
 	up       bool // target is back
 	calls    int
 	failed   int
+	acks     int
 	got      map[uint64][]uint64 // node -> delivered ids
 	failedCh chan struct{}
 	once     sync.Once
@@ -50,7 +52,52 @@ func (w *svcWriter) WriteShardBinary(shardID, ownerID uint64, points [][]byte) e
 			w.got[ownerID] = append(w.got[ownerID], id)
 		}
 	}
+	w.acks++
 	return nil
+}
+
+func (w *svcWriter) nacks() int {
+	w.mu.Lock()
+	defer w.mu.Unlock()
+	return w.acks
+}
+
+// advanceCounter counts hh.advance hook firings (head pointer moves) in the
+// given queue directories. Every move must follow an acknowledged delivery; the
+// surplus is the number of blocks skipped by SendWrite's Advance-on-EOF racing
+// with a WriteShard (listed finding), which the service cases must not blame
+// on the purge ticker or on RemoveNode.
+func advanceCounter(dirs []string) (count *int32, stop func()) {
+	count = new(int32)
+	for _, d := range dirs {
+		observe(d, func(name string, args []interface{}) {
+			if name == "hh.advance" {
+				atomic.AddInt32(count, 1)
+			}
+		})
+	}
+	return count, func() {
+		for _, d := range dirs {
+			unobserve(d)
+		}
+	}
+}
+
+// reportSvcLoss files lost blocks: first those explained by observed
+// Advance-on-EOF skips, the rest under the case's own signature.
+func reportSvcLoss(caseID string, lost []uint64, skips int, sig, what string, wit map[string]interface{}) {
+	if len(lost) == 0 {
+		return
+	}
+	wit["lost"] = trimU64(lost, 32)
+	wit["advances_without_acknowledged_delivery"] = skips
+	if skips > 0 {
+		r.Violation("C04/service/accepted-block-lost/skipped-by-advance-after-stale-eof", caseID,
+			fmt.Sprintf("%d accepted blocks are neither delivered nor on disk; the head pointer moved %d times without an acknowledged delivery (SendWrite's Advance after Current()==EOF skipped a block appended in between)", len(lost), skips), wit)
+	}
+	if len(lost) > skips {
+		r.Violation(sig, caseID, what, wit)
+	}
 }
 
 func pointID(pb []byte) (uint64, bool) {
@@ -189,6 +236,8 @@ func runSvcPurge(caseID string, seed int64, root string) {
 		}
 	}()
 	const shard, node = 7, 3
+	advs, stopObs := advanceCounter([]string{filepath.Join(dir, fmt.Sprint(node), fmt.Sprint(shard))})
+	defer stopObs()
 	var accepted []uint64
 	refused := 0
 	for i := 0; len(accepted) < nblocks && i < nblocks+20; i++ {
@@ -262,7 +311,7 @@ func runSvcPurge(caseID string, seed int64, root string) {
 			what = fmt.Sprintf("the purge ticker removed the queue of an active node right after its first block was delivered and advanced, while %d accepted blocks younger than MaxAge were pending (Empty() reported true)", len(lost))
 			r.Count("svc_nonempty_queue_purged", 1)
 		}
-		r.Violation(sig, caseID, what, map[string]interface{}{"case_seed": seed, "accepted": accepted, "lost": lost, "queue_dir_removed": sawGone,
+		reportSvcLoss(caseID, lost, int(atomic.LoadInt32(advs))-w.nacks(), sig, what, map[string]interface{}{"case_seed": seed, "accepted": accepted, "queue_dir_removed": sawGone,
 			"schedule": "WriteShard x n; first SendWrite succeeds and advances; send loop pauses (retry-rate-limit); purge ticker evaluates Empty(); next SendWrite fails retryably; processor closed and its directory removed"})
 		return
 	}
@@ -294,6 +343,12 @@ func runSvcChurn(caseID string, seed int64, root string) {
 		r.Violation("C04/open-fails/service", caseID, "Service.Open failed: "+err.Error(), nil)
 		return
 	}
+	var qdirs []string
+	for i := 0; i < n; i++ {
+		qdirs = append(qdirs, filepath.Join(dir, "3", fmt.Sprint(100+i)))
+	}
+	advs, stopObs := advanceCounter(qdirs)
+	defer stopObs()
 	var accepted []uint64
 	refused := 0
 	pairs := n // one block per queue: Empty() is then only asked about queues with 0 or 1 block
@@ -333,9 +388,9 @@ func runSvcChurn(caseID string, seed int64, root string) {
 	r.Count("svc_churn_accepted", int64(len(accepted)))
 	r.Count("svc_writes_refused", int64(refused))
 	if len(lost) > 0 {
-		r.Violation("C04/service/block-lost-when-purge-ticker-removes-queue-during-write", caseID,
+		reportSvcLoss(caseID, lost, int(atomic.LoadInt32(advs))-w.nacks(), "C04/service/block-lost-when-purge-ticker-removes-queue-during-write",
 			fmt.Sprintf("%d of %d blocks whose Service.WriteShard returned nil are neither delivered nor on disk after Service.Close(): the purge ticker saw an empty queue, a write was accepted, then the queue directory was removed", len(lost), len(accepted)),
-			map[string]interface{}{"case_seed": seed, "lost": trimU64(lost, 32), "accepted": len(accepted), "refused": refused})
+			map[string]interface{}{"case_seed": seed, "accepted": len(accepted), "refused": refused})
 		return
 	}
 	if len(accepted) > 0 {
@@ -364,6 +419,14 @@ func runSvcRemove(caseID string, seed int64, root string) {
 		r.Violation("C04/open-fails/service", caseID, "Service.Open failed: "+err.Error(), nil)
 		return
 	}
+	var qdirs []string
+	for _, nd := range []int{2, 3} {
+		for _, sh := range []int{7, 8, 9} {
+			qdirs = append(qdirs, filepath.Join(dir, fmt.Sprint(nd), fmt.Sprint(sh)))
+		}
+	}
+	advs, stopObs := advanceCounter(qdirs)
+	defer stopObs()
 	n := 4 + g.Intn(8)
 	var keep []uint64
 	for i := 0; i < n; i++ {
@@ -396,11 +459,16 @@ func runSvcRemove(caseID string, seed int64, root string) {
 	}
 	closeService(svc, 10*time.Second)
 	d, disk := w.delivered(), idsOnDisk(dir)
+	var lost []uint64
 	for _, id := range keep {
 		if !d[id] && !disk[id] {
-			r.Violation("C04/service/remove-node-discarded-other-nodes-blocks", caseID, "a block queued for node 3 is neither delivered nor on disk after node 2 was removed", map[string]interface{}{"case_seed": seed})
-			return
+			lost = append(lost, id)
 		}
+	}
+	if len(lost) > 0 {
+		reportSvcLoss(caseID, lost, int(atomic.LoadInt32(advs))-w.nacks(), "C04/service/remove-node-discarded-other-nodes-blocks",
+			fmt.Sprintf("%d blocks queued for node 3 are neither delivered nor on disk after node 2 was removed", len(lost)), map[string]interface{}{"case_seed": seed})
+		return
 	}
 	r.Count("svc_remove_node_cases", 1)
 	r.Count("svc_blocks_discarded_removed_node", int64(n-len(keep)))
